@@ -334,4 +334,24 @@ theorem topologyPosition_eq_source :
    fun m a b d => ⟨Geo.Proofs.TRAN2Graph.imSet_eq m a b d, Geo.Proofs.TRAN2Graph.imSetAtLeast_eq m a b d⟩,
    Geo.Proofs.TRAN2Graph.imSetAtLeastIfInBoth_eq⟩
 
+/-- [E2] (translator tie) `Label` (label.rs: `swap_args`, `empty_line_or_point`, `empty_area`, `new`, `flip`, `position`,
+`on_position`, `set_position`, `set_on_position`, `set_all_positions`, `set_all_positions_if_empty`, `geometry_count`,
+`is_empty`, `is_any_empty`, `is_area`, `is_geom_area`, `is_line`) of the model is the term regenerated from the Rust bodies on
+every run (`GeoModel/Gen/GraphGen.lean`), the two-element array `geometry_topologies` being the fields `a`, `b` read and
+written through `Label.get` / `Label.set`: which slot each method touches, which `TopologyPosition` method it forwards to,
+the shape `new` picks for the other slot, what `swap_args` exchanges and what `geometry_count` counts. -/
+theorem label_eq_source (l : GG.Label) (idx : Nat) (p : Pos) (t : GG.TopoPos) :
+    Gen.labelSwapArgs l = l.swap ∧ Gen.labelEmptyLineOrPoint = GG.Label.emptyLine ∧ Gen.labelEmptyArea = GG.Label.emptyArea ∧
+    Gen.labelNew idx t = GG.Label.new idx t ∧ Gen.labelFlip l = l.flip ∧
+    Gen.labelPosition l idx .on = l.onPos idx ∧ Gen.labelPosition l idx .left = l.leftPos idx ∧
+    Gen.labelPosition l idx .right = l.rightPos idx ∧ Gen.labelOnPosition l idx = l.onPos idx ∧
+    Gen.labelSetPosition l idx .on p = l.setOn idx p ∧ Gen.labelSetPosition l idx .left p = l.setLeft idx p ∧
+    Gen.labelSetPosition l idx .right p = l.setRight idx p ∧ Gen.labelSetOnPosition l idx p = l.setOn idx p ∧
+    Gen.labelSetAllPositions l idx p = l.setAll idx p ∧ Gen.labelSetAllPositionsIfEmpty l idx p = l.setAllIfEmpty idx p ∧
+    Gen.labelGeometryCount l = l.geometryCount ∧ Gen.labelIsEmpty l idx = l.isEmptyAt idx ∧
+    Gen.labelIsAnyEmpty l idx = l.isAnyEmptyAt idx ∧ Gen.labelIsArea l = l.isArea ∧ Gen.labelIsGeomArea l idx = l.isGeomArea idx ∧
+    Gen.labelIsLine l idx = l.isLineAt idx := by
+  have h := Geo.Proofs.TRAN2Graph.label_eq l idx p
+  exact ⟨h.1, h.2.1, h.2.2.1, Geo.Proofs.TRAN2Graph.labelNew_eq idx t, h.2.2.2⟩
+
 end Geo.Proofs.C17
